@@ -208,6 +208,14 @@ func c16Gen(c *Ctx, tp *tape.Tape, extra map[string]any) *Failure {
 		}
 		return nil
 	}
+	switch tp.Next(7) {
+	case 3:
+		return c16Other(c, tp, "Linux")
+	case 4:
+		return c16Other(c, tp, "PAN-OS")
+	case 5:
+		return c16Other(c, tp, "NSX")
+	}
 	kind := "ASA"
 	if tp.Next(3) == 0 {
 		kind = "IOS"
@@ -243,4 +251,106 @@ func c16Gen(c *Ctx, tp *tape.Tape, extra map[string]any) *Failure {
 func init() {
 	Registry["C16"] = c16Gen
 	Drivers["C16"] = c16Driver
+}
+
+// c16Other: tie-heavy inputs for the other device types, planned through
+// "drc DEVICE-FILE CODE-FILE".
+func c16Other(c *Ctx, tp *tape.Tape, model string) *Failure {
+	var dev string
+	var files map[string]string
+	var input map[string]any
+	switch model {
+	case "Linux":
+		cs := GenLinuxCase(tp)
+		dev, files, input = cs.DeviceText(), cs.Files, cs.Input()
+	case "PAN-OS":
+		cs := GenPanCase(tp)
+		// Ties: several identical unused address-groups on the device while
+		// the target needs a group with these members for a rule the device lacks.
+		if tp.Next(2) == 0 && len(cs.B[0].Groups) > 0 {
+			g := cs.B[0].Groups[tp.Next(len(cs.B[0].Groups))]
+			a := cs.A.Vsys[0]
+			var rules []gen.PRule
+			for _, r := range a.Rules {
+				uses := false
+				for _, l := range [][]string{r.Src, r.Dst} {
+					for _, m := range l {
+						if strings.HasPrefix(m, g.Name) {
+							uses = true
+						}
+					}
+				}
+				if !uses {
+					rules = append(rules, r)
+				}
+			}
+			a.Rules = rules
+			var groups []gen.PGroup
+			for _, x := range a.Groups {
+				if !strings.HasPrefix(x.Name, g.Name) {
+					groups = append(groups, x)
+				}
+			}
+			for _, n := range []string{"zz-" + g.Name, "aa-" + g.Name, "mm-" + g.Name} {
+				groups = append(groups, gen.PGroup{Name: n, Members: append([]string(nil), g.Members...)})
+			}
+			a.Groups = groups
+			for _, m := range g.Members {
+				found := false
+				for _, ad := range a.Addrs {
+					if ad.Name == m {
+						found = true
+					}
+				}
+				if !found {
+					for _, ad := range cs.B[0].Addrs {
+						if ad.Name == m {
+							a.Addrs = append(a.Addrs, ad)
+						}
+					}
+				}
+			}
+		}
+		dev, files, input = gen.PanDeviceXML(cs.A, cs.Spell), cs.Files, cs.Input()
+	case "NSX":
+		cs := GenNsxCase(tp)
+		if tp.Next(2) == 0 && len(cs.B.Groups) > 0 {
+			g := cs.B.Groups[tp.Next(len(cs.B.Groups))]
+			// Rules using g are missing on the device, identical unused copies exist.
+			for pi := range cs.A.Policies {
+				var rules []gen.NRule
+				for _, r := range cs.A.Policies[pi].Rules {
+					if !strings.HasPrefix(r.Src, gen.NGrp+g.ID) && !strings.HasPrefix(r.Dst, gen.NGrp+g.ID) {
+						rules = append(rules, r)
+					}
+				}
+				cs.A.Policies[pi].Rules = rules
+			}
+			var groups []gen.NGroup
+			for _, x := range cs.A.Groups {
+				if !strings.HasPrefix(x.ID, g.ID) {
+					groups = append(groups, x)
+				}
+			}
+			for _, n := range []string{g.ID + "-zz", g.ID + "-aa", g.ID + "-mm"} {
+				groups = append(groups, gen.NGroup{ID: n, IPs: append([]string(nil), g.IPs...)})
+			}
+			cs.A.Groups = groups
+		}
+		dev, files, input = cs.A.NetspocJSON(), cs.Files, cs.Input()
+	}
+	kk := 4
+	if !c.Quick {
+		kk = 8
+	}
+	key, msg, det := c.checkDeterminism(model, dev, files, "", kk, 1+tp.Next(1000))
+	c.NonTrivial(dev, files["router"])
+	c.Count("inputs_"+model, 1)
+	if key != "" {
+		for k, v := range det {
+			input[k] = v
+		}
+		return &Failure{Key: key, Msg: msg, Input: input}
+	}
+	return nil
 }
